@@ -13,14 +13,14 @@ import (
 
 func genC02(rt *rapid.T) Scenario {
 	return genScenario(rt, Profile{MinTargets: 1, MaxTargets: 3, MinSets: 2, MaxSets: 8, MultiTarget: true, Poison: true, Refuse: true, Offline: true,
-		Crashes: 1, Preempt: 2, Drawn: true, Serializable: true})
+		Crashes: 1, Preempt: 2, Drawn: true, Serializable: true, Pace: true})
 }
 
 // checkSendOrder looks at every southbound request together with the step
 // that issued it (C02): changes reach a device in log order, never before
 // every earlier change of that target finished applying, never before they
 // were merged into the stored configuration; re-synchronisation pushes only
-// what the stored configuration holds.
+// values the stored configuration holds or held (the last applied ones).
 func checkSendOrder(r *Run) error {
 	last := map[string]int{}
 	for _, s := range r.Sent {
@@ -42,8 +42,12 @@ func checkSendOrder(r *Run) error {
 		case "configuration":
 			for _, u := range s.Req.Req.Update {
 				k := fakes.ElemsKey(u.Path.Elem)
-				if v, ok := s.ConfigFlat[k]; !ok || v != model.FromGnmiValue(u.Val).Key() {
-					return vstat.Violf("re-synchronisation of %s pushed %s=%s which the stored configuration does not hold (it has %q)", s.Target, k, fakes.ValString(u.Val), v)
+				// the pushed value is the last one APPLIED to that path: the stored configuration holds it now, or held
+				// it after an earlier accepted transaction (a later change of the path is committed but not applied
+				// yet, or was refused by the device)
+				pushed := model.FromGnmiValue(u.Val).Key()
+				if v, ok := s.ConfigFlat[k]; (!ok || v != pushed) && !r.Ref.WasEver(s.Target, k, pushed) {
+					return vstat.Violf("re-synchronisation of %s pushed %s=%s which the stored configuration does not hold and never held (it has %q)", s.Target, k, fakes.ValString(u.Val), v)
 				}
 			}
 		}
